@@ -69,9 +69,10 @@ class Job:
     def command(self):
         s = self.spec
         env = dict(os.environ)
+        # detect_stack_use_after_return makes exception unwinding ~30x slower; it is switched
+        # on only where a property asks for it (C20: lifetimes of temporaries)
         env["ASAN_OPTIONS"] = "detect_leaks=1:abort_on_error=0:allocator_may_return_null=0:" \
-                              "handle_abort=0:detect_stack_use_after_return=1:" \
-                              "malloc_context_size=8"
+                              "handle_abort=0:malloc_context_size=8" + s.get("asan_extra", "")
         env["UBSAN_OPTIONS"] = "print_stacktrace=1:halt_on_error=1"
         env["TSAN_OPTIONS"] = "halt_on_error=1:second_deadlock_stack=1"
         for k, v in s.get("env", {}).items():
@@ -209,7 +210,7 @@ def replay_artifact(binary, path, exclude, times, env_extra=None):
     """re-run a failing case through the replay driver; returns number of failing runs"""
     fails = 0
     env = dict(os.environ)
-    env["ASAN_OPTIONS"] = "detect_leaks=1:handle_abort=0:detect_stack_use_after_return=1"
+    env["ASAN_OPTIONS"] = "detect_leaks=1:handle_abort=0"
     env["UBSAN_OPTIONS"] = "print_stacktrace=1:halt_on_error=1"
     env.update(env_extra or {})
     last = ""
